@@ -50,8 +50,10 @@ def gen(rng, tier):
                               path=dict(form="path", spec=spec, routes=[], seed=1),
                               seq=dict(form="seq", spec=spec, strict=False, V=rng.choice([1, 2]), L=n + 2, seed=1)))
     # explicit seeds incl. the boundary value 0 (a falsy seed must still be honoured)
-    for sd in [0, rng.randrange(1, 10 ** 4)] + ([rng.randrange(10 ** 4) for _ in range(10)] if tier != "quick" else []):
-        yield dict(kind="random", seed=sd, ns=1, nd=rng.randint(1, 2), horizon=rng.choice([25, 30]), forms=["arc", "path"])
+    for idx_, sd in enumerate([0, rng.randrange(1, 10 ** 4), 0] + ([rng.randrange(10 ** 4) for _ in range(10)] if tier != "quick" else [])):
+        # (an explicit seed may be a Python int or a numpy integer, e.g. an element of np.arange or of rng.integers)
+        yield dict(kind="random", seed=sd, seed_type=["int", "npint64", "npint32", "npuint32"][idx_ % 4], ns=1, nd=rng.randint(1, 2),
+                   horizon=rng.choice([25, 30]), forms=["arc", "path"])
 
 
 def run_worker(job, hashseed):
@@ -104,7 +106,7 @@ def run_case(case, drv):
         else:
             from vrpqubo.examples.mirp_random import get_generator
             g = get_generator(case["ns"], case["nd"], case["horizon"])
-            g.seed = case["seed"]
+            g.seed = {"npint64": np.int64, "npint32": np.int32, "npuint32": np.uint32}.get(case.get("seed_type"), int)(case["seed"])
             m = g.get_random_mirp(reset_seed=True)
         fp = {}
         for form in ["path"]:
